@@ -5,12 +5,12 @@ import (
 	"crypto"
 	"crypto/ecdsa"
 	"crypto/hmac"
+	cryptorand "crypto/rand"
 	"crypto/rsa"
 	"crypto/sha256"
 	"crypto/sha512"
 	"crypto/x509"
 	"crypto/x509/pkix"
-	cryptorand "crypto/rand"
 	"fmt"
 	"hash"
 	"net/http"
@@ -323,10 +323,14 @@ func (w *World) DI(ctx context.Context, d *Device, mfg string) error {
 		return err
 	}
 	h256, h384 := d.HMACs()
-	cred, err := fdo.DI(ctx, w.Transport(d.Name, mfg), custom.DeviceMfgInfo{
-		KeyType: d.Cfg.Type, KeyEncoding: d.Cfg.Enc, SerialNumber: "sn-" + d.Name, DeviceInfo: "info-" + d.Name,
-		CertInfo: cbor.X509CertificateRequest(*csr),
-	}, fdo.DIConfig{HmacSha256: h256, HmacSha384: h384, Key: d.Key.Key, PSS: d.Cfg.PSS()})
+	var cred *fdo.DeviceCredential
+	err, _ = w.Net.SafeCall("DI:"+d.Name, func() (e error) {
+		cred, e = fdo.DI(ctx, w.Transport(d.Name, mfg), custom.DeviceMfgInfo{
+			KeyType: d.Cfg.Type, KeyEncoding: d.Cfg.Enc, SerialNumber: "sn-" + d.Name, DeviceInfo: "info-" + d.Name,
+			CertInfo: cbor.X509CertificateRequest(*csr),
+		}, fdo.DIConfig{HmacSha256: h256, HmacSha384: h384, Key: d.Key.Key, PSS: d.Cfg.PSS()})
+		return e
+	})
 	if err != nil {
 		return err
 	}
@@ -353,10 +357,14 @@ func (w *World) TO2(ctx context.Context, d *Device, owner string, to1d *cose.Sig
 	if o.Transport != nil {
 		tr = o.Transport
 	}
-	cred, err := fdo.TO2(ctx, tr, to1d, fdo.TO2Config{
-		Cred: *d.Cred, HmacSha256: h256, HmacSha384: h384, Key: d.Key.Key, PSS: d.Cfg.PSS(),
-		Devmod: defaultDevmod, DeviceModules: o.Modules, KeyExchange: o.Kex, CipherSuite: o.Cipher,
-		MaxServiceInfoSizeReceive: o.MTU, AllowCredentialReuse: o.AllowReuse,
+	var cred *fdo.DeviceCredential
+	err, _ = w.Net.SafeCall("TO2:"+d.Name, func() (e error) {
+		cred, e = fdo.TO2(ctx, tr, to1d, fdo.TO2Config{
+			Cred: *d.Cred, HmacSha256: h256, HmacSha384: h384, Key: d.Key.Key, PSS: d.Cfg.PSS(),
+			Devmod: defaultDevmod, DeviceModules: o.Modules, KeyExchange: o.Kex, CipherSuite: o.Cipher,
+			MaxServiceInfoSizeReceive: o.MTU, AllowCredentialReuse: o.AllowReuse,
+		})
+		return e
 	})
 	if err != nil {
 		return false, err
@@ -368,8 +376,12 @@ func (w *World) TO2(ctx context.Context, d *Device, owner string, to1d *cose.Sig
 }
 
 // TO1 runs TO1 for d against the rendezvous node.
-func (w *World) TO1(ctx context.Context, d *Device, rv string) (*cose.Sign1[protocol.To1d, []byte], error) {
-	return fdo.TO1(ctx, w.Transport(d.Name, rv), *d.Cred, d.Key.Key, &fdo.TO1Options{PSS: d.Cfg.PSS()})
+func (w *World) TO1(ctx context.Context, d *Device, rv string) (blob *cose.Sign1[protocol.To1d, []byte], err error) {
+	err, _ = w.Net.SafeCall("TO1:"+d.Name, func() (e error) {
+		blob, e = fdo.TO1(ctx, w.Transport(d.Name, rv), *d.Cred, d.Key.Key, &fdo.TO1Options{PSS: d.Cfg.PSS()})
+		return e
+	})
+	return blob, err
 }
 
 // TO0 registers owner's address for guid at the rendezvous node.
@@ -377,7 +389,12 @@ func (w *World) TO0(ctx context.Context, owner, rv string, guid protocol.GUID, t
 	on := w.Nodes[owner]
 	c := &fdo.TO0Client{Vouchers: on.Store, OwnerKeys: on.Store, TTL: ttl}
 	dns := owner
-	return c.RegisterBlob(ctx, w.Transport(owner, rv), guid, []protocol.RvTO2Addr{{DNSAddress: &dns, Port: 8043, TransportProtocol: protocol.HTTPTransport}})
+	var got uint32
+	err, _ := w.Net.SafeCall("TO0:"+owner, func() (e error) {
+		got, e = c.RegisterBlob(ctx, w.Transport(owner, rv), guid, []protocol.RvTO2Addr{{DNSAddress: &dns, Port: 8043, TransportProtocol: protocol.HTTPTransport}})
+		return e
+	})
+	return got, err
 }
 
 // ExtendTo moves the voucher for guid out of node `from` (which must hold its
